@@ -5,18 +5,25 @@ Ops (handled by lean/Driver/HmacBlakeD.lean):
   bhmac <n> <key> <msg>              HMAC(Blake(n),key)(msg)
   bhmac.s <n> <key> <msg>            HMAC(blake<n>,key)(msg)           (module singleton)
   bhmacseq <n> <msg> <k1> <k2> …     one HMAC object over Blake(n): setkey(k_i); call(msg) for each key
+  bhmach <n|@n> | <step> | …         ONE Blake(n) object (@n: the module singleton) with a HISTORY, handed to HMAC: the steps of
+                                     the C14 `blakeseqs` lines on it (new | init [salt=<n>] | upd <hex> [L] | fin <hex> [L] |
+                                     call <hex> [s=<n>] [bitlen=<L>]) and `mac <key> <msg>` (o = HMAC(h,key); o(msg)),
+                                     `again <msg>` (o(msg) once more, after whatever was done to h since)
 The driver answers with Model.Hmac over Model.Blake and with Spec.rfc2104 over Spec.Blake.  check_impl recomputes
 RFC 2104 over an independent BLAKE reference (props/parts/blake_ref.py: plain integers, pinned by the submission's known
 answers), so the predicate shares nothing with crysp or with the Lean side."""
 from props.common import *
 from props.parts import blake_ref
+from props import hashcommon as HC
 
 PREFIX = ('bhmac',)
 LEAN_PROOFS = ['Proofs.C13_Blake']
 GEN_ITEMS = ['BlakeG']
 TRUSTED = ['tools/props/parts/blake_ref.py as an independent rendering of the BLAKE submission (pinned by its eight known answers); '
            'there is no BLAKE-1 or HMAC-BLAKE oracle in the image']
-ASSUMPTIONS = ['HMAC calls the BLAKE object with its default salt 0 and no bit length (what crysp/hmac.py does)']
+ASSUMPTIONS = ['HMAC calls the BLAKE object with its default salt 0 and no bit length (what crysp/hmac.py does): RFC 2104 over the UNSALTED BLAKE-n, '
+               'whatever salt, bit length or stream the hash object was used with before it was handed to HMAC or between two MACs (bhmach lines)']
+SINGLETONS = ('blake224', 'blake256', 'blake384', 'blake512')
 
 SIZES = (224, 256, 384, 512)
 def blk(n): return 128 if n > 256 else 64
@@ -31,6 +38,7 @@ def run_impl(line):
         return BL.Blake(int(a[0]))
     if op in ('bhmac', 'bhmac.s'):
         return guarded(lambda: hx(HMAC(obj(), unhx(a[1]))(unhx(a[2]))))
+    if op == 'bhmach': return run_hist(a)
     if op == 'bhmacseq':
         try: o = HMAC(obj())
         except Exception: return 'ERR'
@@ -41,6 +49,91 @@ def run_impl(line):
             out.append(guarded(go))
         return ';'.join(out)
     raise RuntimeError('unknown op ' + op)
+
+
+def run_hist(a):
+    """bhmach: one Blake object through its history and the MACs; the module singletons are put back afterwards"""
+    from crysp.hmac import HMAC
+    import crysp.blake as BL
+    from props.parts import c14_blake as SEQ
+    steps = HC.split_bar(a)
+    cls = steps[0][0]
+    if cls.lstrip('@') not in ('224', '256', '384', '512'): raise RuntimeError('bhmach: no BLAKE class ' + cls)
+    saved = [(getattr(BL, n), dict(vars(getattr(BL, n)))) for n in SINGLETONS]
+    box = {'h': None, 'o': None}
+    out = []
+    try:
+        for st in steps[1:]:
+            h = box['h']
+            bl = lambda: ({'bitlen': int(st[2])} if len(st) > 2 else {})
+            def cnt(f):
+                f(); return 'c%d' % h.padmethod.bitcnt
+            if st[0] == 'new': box['h'] = SEQ.mkobj(cls); r = '-'
+            elif st[0] == 'mac':
+                def go():
+                    o = HMAC(h, unhx(st[1])); box['o'] = o
+                    return hx(o(unhx(st[2])))
+                r = guarded(go)
+            elif st[0] == 'again': r = guarded(lambda: hx(box['o'](unhx(st[1]))))
+            elif st[0] == 'init': r = guarded(lambda: cnt(lambda: h.initstate(**SEQ.kw_of(st[1:]))))
+            elif st[0] == 'upd': r = guarded(lambda: cnt(lambda: h.update(unhx(st[1]), **bl())))
+            elif st[0] == 'fin': r = guarded(lambda: hx(h.update(unhx(st[1]), padding=True, **bl())))
+            elif st[0] == 'call': r = guarded(lambda: hx(h(unhx(st[1]), **SEQ.kw_of(st[2:]))))
+            else: raise RuntimeError('bad step %r' % st)
+            out.append(r)
+    finally:
+        for o, d in saved: vars(o).clear(); vars(o).update(d)
+    return ';'.join(out)
+
+
+def check_hist(a, res):
+    """every MAC of the line is RFC 2104 over the UNSALTED BLAKE-n (independent reference) for the key of its HMAC object,
+    whatever the hash object did before; the hash object's own calls / streams are the salted BLAKE-n of their own data"""
+    steps = HC.split_bar(a)
+    cls = steps[0][0]; n = int(cls.lstrip('@'))
+    outs = res.split(';')
+    if len(outs) != len(steps) - 1: return 'bhmach %s: %d results for %d steps' % (cls, len(outs), len(steps) - 1)
+    B = blk(n); key = None; stream = None; seen = []
+    for i, (st, o) in enumerate(zip(steps[1:], outs)):
+        bad = lambda why: 'bhmach %s step #%d (%s) after [%s]: %s' % (cls, i, st[0], ' | '.join(seen[:-1]), why)
+        kw = dict(t.split('=') for t in (st[1:] if st[0] == 'init' else st[2:] if st[0] == 'call' else []))
+        seen.append(' '.join([st[0]] + ['%s=%s' % kv for kv in kw.items()]))
+        if st[0] in ('mac', 'again'):
+            stream = None
+            if st[0] == 'mac': key = unhx(st[1])
+            if key is None:
+                if o != 'ERR': return bad('there is no HMAC object yet')
+                continue
+            m = unhx(st[2] if st[0] == 'mac' else st[1])
+            exp = hx(ref_hmac(n, key, m))
+            if o != exp: return bad('|K|=%d |M|=%d: the MAC %s differs from RFC 2104 over (unsalted) BLAKE-%d, %s' % (len(key), len(m), o[:25], n, exp[:25]))
+        elif st[0] == 'new': stream = None
+        elif st[0] == 'call':
+            stream = None
+            M = unhx(st[1]); L = int(kw['bitlen']) if 'bitlen' in kw else None
+            if L is not None and L > 8 * len(M):
+                if o != 'ERR': return bad('a bit length beyond the data must be refused')
+            elif L is None or L % 8 == 0:
+                exp = hx(blake_ref.blake(n, M if L is None else M[:L // 8], int(kw.get('s', 0))))
+                if o != exp: return bad('differs from BLAKE-%d of its own message and salt' % n)
+        elif st[0] == 'init':
+            stream = (b'', int(kw.get('salt', 0)))
+            if o != 'c0': return bad('counter %s right after initstate' % o)
+        elif stream is None: continue
+        else:
+            msg, salt = stream; p = unhx(st[1]); L = int(st[2]) if len(st) > 2 else 8 * len(p)
+            if L > 8 * len(p) or (st[0] == 'upd' and L % (8 * B)):
+                stream = None
+                if o != 'ERR': return bad('a piece that must be refused was accepted')
+            elif st[0] == 'upd':
+                stream = (msg + p[:L // 8], salt)
+                if o != 'c%d' % (8 * len(stream[0])): return bad('counter %s after %d bits' % (o, 8 * len(stream[0])))
+            else:
+                stream = None
+                if L % 8 == 0:
+                    exp = hx(blake_ref.blake(n, msg + p[:L // 8], salt))
+                    if o != exp: return bad('the streamed digest differs from BLAKE-%d of the pieces with the salt of its initstate' % n)
+    return None
 
 
 def rfc2104(H, B, k, m):
@@ -54,6 +147,7 @@ def ref_hmac(n, k, m): return rfc2104(lambda x: blake_ref.blake(n, x), blk(n), k
 
 def check_impl(line, res):
     t = line.split(); op, a = t[0], t[1:]
+    if op == 'bhmach': return check_hist(a, res)
     n = int(a[0])
     bad = lambda why: '%s %d: %s' % (op, n, why)
     if n not in SIZES:
@@ -85,10 +179,58 @@ def msg_lengths(B, w):
     return [0, 1, B - lb - 2, B - lb - 1, B - lb, B - 1, B, B + 1, 2 * B + 3]
 
 
+def histories(n, rng):
+    """what a Blake(n) object may have been used for before it is handed to HMAC / between two MACs -> [(tag, steps)]"""
+    B = blk(n); w = 64 if n > 256 else 32
+    X, Y = rng.getrandbits(4 * w) | 1, rng.getrandbits(40) | 1
+    m, t, blk1 = rnd(rng, B + 9), rnd(rng, 3), rnd(rng, B)
+    return [('salted call', ['call %s s=%d' % (hx(m), X)]),
+            ('salted call, one word of salt', ['call %s s=%d' % (hx(t), Y)]),
+            ('salted stream, finished', ['init salt=%d' % X, 'upd ' + hx(blk1), 'fin ' + hx(t)]),
+            ('salted stream, abandoned', ['init salt=%d' % Y, 'upd ' + hx(blk1)]),
+            ('unsalted stream, abandoned', ['init', 'upd ' + hx(blk1 + blk1)]),
+            ('refused salted call', ['call %s s=%d bitlen=%d' % (hx(m), X, 8 * len(m) + 8)]),
+            ('salted stream, refused piece', ['init salt=%d' % X, 'upd ' + hx(blk1), 'upd x0102']),
+            ('call with a bit length', ['call %s bitlen=%d' % (hx(m), 8 * B + 13)]),
+            ('salted initstate only', ['init salt=%d' % X])]
+
+
+def hline(cls, steps): return 'bhmach %s | %s' % (cls, ' | '.join(steps))
+
+
+def hist_cases(tier, rng):
+    """the hash object has a HISTORY: before HMAC(h,key), between HMAC(h,key) and the MAC call, between two MACs of one HMAC
+    object, between two HMAC objects over the same hash object; new objects and the module singletons; keys shorter than,
+    equal to and longer than the block (setkey hashes the long key on the used object too)"""
+    thorough = tier == 'thorough'
+    for n in SIZES:
+        B, D = blk(n), n // 8
+        for cls in (str(n), '@%d' % n):
+            hs = histories(n, rng)
+            for hi, (tag, life) in enumerate(hs):
+                if not thorough and cls[0] == '@' and hi % 2: continue
+                for kl in ((1, D, B, B + 1, 2 * B + 3) if thorough else (D, B + 1) if hi < 4 else (rng.choice([1, B, B + 5]),)):
+                    k, m = rnd(rng, kl), rnd(rng, rng.choice([0, 3, B - 17, B + 1]))
+                    yield hline(cls, ['new'] + life + ['mac %s %s' % (hx(k), hx(m))]), 'bhmach:%s, then HMAC' % tag
+                k, k2, m = rnd(rng, rng.choice([D, B + 2])), rnd(rng, rng.choice([5, B + 7])), rnd(rng, rng.randrange(0, B))
+                other = hs[(hi + 3) % len(hs)][1]
+                yield hline(cls, ['new', 'mac %s %s' % (hx(k), hx(m))] + life + ['again ' + hx(m)] + other + ['mac %s %s' % (hx(k2), hx(m)), 'again ' + hx(rnd(rng, 4))]), 'bhmach:HMAC, %s, the same HMAC again, another history, a new HMAC' % tag
+            # several lives in a row, then HMAC; the unsalted digest of the object itself afterwards
+            ls = list(hs); rng.shuffle(ls)
+            yield hline(cls, ['new'] + [x for _, life in ls[:4] for x in life] + ['mac %s %s' % (hx(rnd(rng, B + 1)), hx(rnd(rng, 9))), 'call ' + hx(rnd(rng, 5))]), 'bhmach:several lives, then HMAC'
+    yield hline('256', ['new', 'again x00', 'mac x01 x02']), 'bhmach:malformed'
+
+
 def cases(tier, rng):
     if tier == 'search':
         while True:
             n = rng.choice(SIZES); B = blk(n)
+            if rng.randrange(3) == 0:
+                hs = histories(n, rng)
+                life = [x for _ in range(rng.randrange(1, 3)) for x in rng.choice(hs)[1]]
+                kl = rng.choice([rng.randrange(0, B + 1), B + rng.randrange(1, 9)])
+                yield hline(rng.choice([str(n), '@%d' % n]), ['new'] + life + ['mac %s %s' % (hx(rnd(rng, kl)), hx(rnd(rng, rng.randrange(0, 2 * B))))]), 'search'
+                continue
             kl = rng.choice([rng.randrange(0, 3 * B + 1), B + rng.randrange(-2, 3), n // 8 + rng.randrange(-1, 2)])
             yield 'bhmac %d %s %s' % (n, hx(rnd(rng, kl)), hx(rnd(rng, rng.randrange(0, 3 * B)))), 'search'
         return
@@ -114,6 +256,7 @@ def cases(tier, rng):
         seqs = [(B + 1, 1), (1, B + 1), (B, B + 1, B - 1), (3 * B, 0), (0, 3 * B), (D, B + D), (B + 5, B + 6)]
         for sq in seqs:
             yield 'bhmacseq %d %s %s' % (n, hx(rnd(rng, 5)), ' '.join(hx(rnd(rng, x)) for x in sq)), 'bhmacseq:setkey replaces'
+    yield from hist_cases(tier, rng)
     # malformed: sizes that are no BLAKE size
     yield 'bhmac 100 x01 x02', 'malformed'
     yield 'bhmacseq 255 x02 x01 x03', 'malformed'
@@ -121,6 +264,11 @@ def cases(tier, rng):
 
 def shrink(line):
     t = line.split()
+    if t[0] == 'bhmach':
+        steps = HC.split_bar(t[1:])
+        for i in range(2, len(steps) - 1):                   # drop a step of the history (the `new` and the last step stay)
+            yield hline(steps[0][0], [' '.join(x) for j, x in enumerate(steps[1:], 1) if j != i])
+        return
     if t[0] in ('bhmac', 'bhmac.s'):
         k, m = unhx(t[2]), unhx(t[3])
         if m: yield '%s %s %s %s' % (t[0], t[1], t[2], hx(m[:len(m) // 2]))
